@@ -303,6 +303,7 @@ Raised(e) ==
 ParseClauses(e, D) ==
   IF D.acc THEN
      IF Has(e, "exc") THEN {"C10:valid-sentence-rejected"}
+     ELSE IF D.n > MaxExpand THEN (IF GraphOf(e.g).n = D.n THEN {} ELSE {"C10:atoms-differ-from-formula"})
      ELSE LET P == GraphOf(e.g)  H == DenoteGraph(D) IN
           (IF P.n = H.n /\ P.z = H.z /\ P.sym = H.sym THEN {} ELSE {"C10:atoms-differ-from-formula"})
           \cup (IF P.n = H.n /\ P.adj = H.adj THEN {} ELSE {"C10:bonds-differ"})
